@@ -331,7 +331,7 @@ static void case_c09(rng_t *r, ctx_t *c) {
 
 /* ----------------------------------- C11 -------------------------------------------- */
 static void case_c11(rng_t *r, ctx_t *c) {
-    int hugeanno = rng_chance(r, 1, 10), nhuge = 0;
+    int hugeanno = rng_chance(r, 1, 10), nhuge = 0, nutc = 0;
     prog_t p; prog_init(&p);
     prog_add_source(&p, 1, "src-one");
     int nsig = (int) rng_range(r, 1, 2);
@@ -345,6 +345,7 @@ static void case_c11(rng_t *r, ctx_t *c) {
     int total_lists = 0;
     for (int i = 0; i < nsig + use_global; ++i) {
         uint16_t sid; uint32_t adf = 100; int64_t base = 0; int fsr_data = 0;
+        int with_utc = 0; int64_t utc_base = 0;   /* UTC entries written in between the annotations of the same FSR signal */
         if (i == 0 && use_global) { sid = 0; }
         else {
             const dtype_t *t = rng_chance(r, 1, 2) ? dtype_by_name("f32") : pick_type(r);
@@ -361,6 +362,7 @@ static void case_c11(rng_t *r, ctx_t *c) {
             prog_add_signal(&p, &d, "anno", "", PAT_RANDOM, rng_u64(r));
             sid = d.signal_id;
             fsr_data = !is_vsr && rng_chance(r, 1, 2);
+            with_utc = !is_vsr && rng_chance(r, 1, 3); utc_base = first;
             if (fsr_data) { add_stream(&lists[nl], r, sid, first, rng_range(r, 1, 300), 10, PART_RANDOM, 0); base = first; }
         }
         ids[i] = sid; adfs[i] = adf; withdata[i] = fsr_data;
@@ -416,6 +418,7 @@ static void case_c11(rng_t *r, ctx_t *c) {
             if (hugeanno && k == n / 2) { static const uint32_t hs[] = {1048548, 1048549, (1 << 20) + 12345, 3 << 20, (2 << 20) - 27}; o->dsize = RNG_PICK(r, hs); nhuge++; }
             if (o->stype != JLS_STORAGE_TYPE_BINARY && o->dsize == 0) o->dsize = 1;
             o->dseed = rng_u64(r);
+            if (with_utc && (k % 4) == 3) { op_t *u = ol_add(&lists[nl], OP_UTC); u->id = sid; u->sid = utc_base + k * 5; u->utc = JLS_TIME_SECOND * 100 + k * 1000000; nutc++; }
         }
         fn += (size_t) snprintf(feat + fn, sizeof(feat) - fn, "%s[%s adf=%u n=%s ts=%d]", i ? "+" : "", sid == 0 ? "global" : (fsr_data ? "fsr+data" : "fsr"),
                                 adf, n == 0 ? "0" : n < adf ? "<adf" : n < (int64_t) adf * adf ? "<adf2" : n < (int64_t) adf * adf * adf ? "<adf3" : ">=adf3", tsmode);
@@ -432,6 +435,7 @@ static void case_c11(rng_t *r, ctx_t *c) {
     size_t tot = 0; for (int i = 0; i < 256; ++i) tot += m.sig[i].nanno;
     v_feature("C11", tot > 0, "%s", feat);
     v_feature("C11", nhuge > 0, "huge-annotation-payloads");
+    v_feature("C11", nutc > 0, "utc-entries-between-annotations");
     decode_and_compare(path, &m, "C05", "sync", 0);
     verify_opts_t vo = {.prop_len = "C01", .prop_data = NULL, .check_anno = 1, .rng = r, .file_kind = "sync"};
     verify_file(path, &m, &vo);
@@ -454,6 +458,12 @@ static void case_c12(rng_t *r, ctx_t *c) {
     d.sample_rate = RNG_PICK(r, rates);
     int fcls; int64_t first = gen_first_id(r, &fcls);
     d.sample_id_offset = first;
+    /* other FSR signals around it: a lower-numbered one that never receives samples, a higher-numbered one that does */
+    int neighbours = rng_chance(r, 1, 3);
+    if (neighbours) {
+        struct jls_signal_def_s e; gen_def(r, &e, 3, 1, pick_type(r), DEF_MINIMAL); e.sample_id_offset = 0;
+        prog_add_signal(&p, &e, "empty-below", "", PAT_RANDOM, rng_u64(r));
+    }
     prog_add_signal(&p, &d, "utc", "", PAT_RANDOM, rng_u64(r));
     oplist_t l[2]; memset(l, 0, sizeof(l));
     int with_data = rng_chance(r, 2, 3);
@@ -502,6 +512,7 @@ static void case_c12(rng_t *r, ctx_t *c) {
     v_feature("C12", 1, "n=%d|udf=%u|rate=%u|first=%s|data=%d|irregular=%d|equal=%d|drift=%s", ncls, udf, d.sample_rate, FIRST_NAME[fcls], with_data, irregular, equal_times,
               drift_ppm < -100 ? "neg" : drift_ppm > 100 ? "pos" : "small");
     v_feature("C12", n > 0, "utc-values=%s|first=%s|udf=%u", utccls == 1 ? "pre-epoch" : utccls == 2 ? "small" : "ordinary", FIRST_NAME[fcls], udf);
+    v_feature("C12", neighbours && with_data, "empty-lower-numbered-signal|first=%s", FIRST_NAME[fcls]);
     decode_and_compare(path, &m, "C05", "sync", 0);
     verify_opts_t vo = {.prop_len = "C01", .prop_data = NULL, .check_utc = 1, .rng = r, .file_kind = "sync"};
     verify_file(path, &m, &vo);
@@ -680,7 +691,40 @@ static int files_identical(const char *a, const char *b, size_t *first_diff) {
     return same;
 }
 
+/* the whole id space: all 255 user sources and all 255 user signals, in scrambled order (counts that no longer fit 8 bits) */
+static void case_c13_full(rng_t *r) {
+    prog_t p; prog_init(&p);
+    uint16_t ids[255];
+    for (int i = 0; i < 255; ++i) ids[i] = (uint16_t) (i + 1);
+    for (int i = 254; i > 0; --i) { int j = (int) rng_below(r, (uint64_t) i + 1); uint16_t t = ids[i]; ids[i] = ids[j]; ids[j] = t; }
+    int nsrc = rng_chance(r, 1, 2) ? 255 : (int) rng_range(r, 250, 254);
+    for (int i = 0; i < nsrc; ++i) { char nm[24]; snprintf(nm, sizeof(nm), "src-%u", ids[i]); prog_add_source(&p, ids[i], nm); }
+    uint16_t sids[255];
+    for (int i = 0; i < 255; ++i) sids[i] = (uint16_t) (i + 1);
+    for (int i = 254; i > 0; --i) { int j = (int) rng_below(r, (uint64_t) i + 1); uint16_t t = sids[i]; sids[i] = sids[j]; sids[j] = t; }
+    int nsig = rng_chance(r, 1, 2) ? 255 : (int) rng_range(r, 250, 254);
+    for (int i = 0; i < nsig; ++i) {
+        struct jls_signal_def_s d;
+        gen_def(r, &d, sids[i], ids[rng_below(r, (uint64_t) nsrc)], pick_type(r), DEF_MINIMAL);
+        if (rng_chance(r, 1, 6)) { d.signal_type = JLS_SIGNAL_TYPE_VSR; d.sample_rate = 0; }
+        char nm[24]; snprintf(nm, sizeof(nm), "sig-%u", sids[i]);
+        prog_add_signal(&p, &d, nm, (i & 1) ? "u" : "", PAT_RANDOM, rng_u64(r));
+    }
+    for (int i = 0; i < 3; ++i) { op_t *o = prog_add(&p, OP_USER); o->meta = (uint16_t) rng_below(r, 4096); o->stype = (uint8_t) rng_range(r, 1, 3); o->dsize = (uint32_t) rng_range(r, 1, 50); o->dseed = rng_u64(r); }
+    model_t m;
+    const char *path = v_path("c13full.jls");
+    run_sync(&p, &m, path);
+    sample_prog("C13", &p);
+    v_feature("C13", 1, "full-id-space|src=%d|sig=%d", nsrc, nsig);
+    decode_and_compare(path, &m, "C05", "sync", 0);
+    verify_opts_t vo = {.prop_len = "C01", .prop_data = "C01", .windows = 1, .check_defs = 1, .check_user = 1, .rng = r, .file_kind = "sync"};
+    verify_file(path, &m, &vo);
+    model_free(&m); prog_free(&p);
+    if (!getenv("VERIF_KEEP")) unlink(path);
+}
+
 static void case_c13(rng_t *r, ctx_t *c) {
+    if (rng_chance(r, 1, 40)) { case_c13_full(r); return; }
     prog_t p; prog_init(&p);
     int big = c->thorough ? rng_chance(r, 1, 8) : rng_chance(r, 1, 10);
     /* sources in random order, random ids */
